@@ -17,7 +17,7 @@ def title(readme):
 os.makedirs(OUT, exist_ok=True)
 rows = []
 for d in sorted(os.listdir(SRC)):
-    m = re.fullmatch(r"([ABDW]\d+)-out", d)
+    m = re.fullmatch(r"([ABDEW]\d+)-out", d)
     if not m:
         continue
     for mm in sorted(os.listdir(os.path.join(SRC, d))):
